@@ -14,6 +14,15 @@ import Glom.Model.C02
   target looks like afterwards.  The first operation that fails ends the
   evaluation: a failing attribute / item / arithmetic step is reported with its
   position, a failing call keeps the exception of the called function.
+  "Taken literally" includes instances of SUBCLASSES of the builtin containers
+  (`E.sub`: the operation receives the very object); only objects whose type IS
+  list / tuple / dict / set / frozenset are displays whose members are evaluated.
+
+  The callee of a call: in plain Python the object the chain reached is called
+  (`plainRV`).  glom passes it through `arg_val` first; the reference is therefore
+  parametrised by `rv : RV V S` — what happens to the callee before the arguments
+  are evaluated — and the theorems instantiate it with `prim.revalFunc` (what glom
+  does, no hypothesis) or, under `PlainCallee`, with `plainRV`.
 
   Nothing here mentions op characters, the flat tuple, or `_t_eval`'s branch table.
 -/
@@ -55,26 +64,44 @@ def pyApply {V S} (prim : Prim V S) (kind : Kind) (s : S) (cur : V) (av : AV V) 
 inductive RefErr where
   | opFail (k : Nat) (kind : Kind) (e : PyExc)   -- operation number `k` (of kind `kind`) raised `e`
   | raised (e : PyExc)                           -- building an argument raised `e` (unhashable dict key)
+  | callee (e : Err)                             -- evaluating a spec object used as CALLEE failed with `e`
   | unsupported
   deriving DecidableEq, Repr
 
+/-- What happens to the callee of a call before its arguments are evaluated:
+    `rv s target f`.  In plain Python: nothing (`plainRV`).  glom passes the callee through
+    `arg_val` (`Prim.revalFunc`): a callable is a literal there, a glom spec object (a `T`
+    expression, `Spec(…)`) found in the target's data is evaluated against the target. -/
+abbrev RV (V S : Type) := S → V → V → Except Err V × S
+
+/-- plain Python: the callee is the object the chain reached -/
+def plainRV {V S} : RV V S := fun s _ f => (.ok f, s)
+
+/-- the callee of operation `kind?` on `cur`: for a call, `rv` is applied first -/
+def calleeOf {V S} (kind? : Option Kind) (rv : S → V → Except Err V × S) (s : S) (cur : V) :
+    Except Err V × S :=
+  if kind? == some .call then rv s cur else (.ok cur, s)
+
 /-- apply the operations left to right; `k` is the position of the head.  The
     argument of an operation is evaluated when the operation is reached, in the
-    state the earlier operations left. -/
-def foldSteps {V S} (prim : Prim V S) :
+    state the earlier operations left (for a call: callee first, then the arguments). -/
+def foldSteps {V S} (prim : Prim V S) (rv : S → V → Except Err V × S) :
     List (Option Kind × Run S RefErr (AV V)) → Nat → S → V → Except RefErr V × S
   | [], _, s, cur => (.ok cur, s)
   | (kind?, ra) :: rest, k, s, cur =>
-    match ra s with
-    | (.error e, s1) => (.error e, s1)
-    | (.ok av, s1) =>
-      match kind? with
-      | none => (.error .unsupported, s1)
-      | some kind =>
-        match pyApply prim kind s1 cur av with
+    match calleeOf kind? rv s cur with
+    | (.error e, s0) => (.error (.callee e), s0)
+    | (.ok f, s0) =>
+      match ra s0 with
+      | (.error e, s1) => (.error e, s1)
+      | (.ok av, s1) =>
+        match kind? with
         | none => (.error .unsupported, s1)
-        | some (.ok v, s2) => foldSteps prim rest (k + 1) s2 v
-        | some (.error e, s2) => (.error (.opFail k kind e), s2)
+        | some kind =>
+          match pyApply prim kind s1 f av with
+          | none => (.error .unsupported, s1)
+          | some (.ok v, s2) => foldSteps prim rv rest (k + 1) s2 v
+          | some (.error e, s2) => (.error (.opFail k kind e), s2)
 
 def refVal1 {V} (r : Except RefErr (AV V)) : Except RefErr V :=
   match r with
@@ -103,52 +130,68 @@ def refEntryRun {V S} (prim : Prim V S) (k v : Run S RefErr V) : Run S RefErr (V
       | .ok _ => (.ok kv, (prim.hashKey s1 kv.1).2)
       | .error e => (.error (.raised e), (prim.hashKey s1 kv.1).2)
 
+/-- the builtin container types glom documents as rebuilt member by member in argument mode -/
+def rebuiltTypes : List String := ["list", "dict", "tuple", "set", "frozenset"]
+
 /-- the value of an argument expression, for the target object `target`, evaluated
     in the state current when it is run -/
-def refArg {V S} (prim : Prim V S) (target : V) : E V → Run S RefErr (AV V)
+def refArg {V S} (prim : Prim V S) (rv : RV V S) (target : V) : E V → Run S RefErr (AV V)
   | .lit v => fun s => (.ok (.val v), s)
   | .texpr steps => fun s =>
     -- the chain is applied to the target object as it is now; each argument is
     -- evaluated against the target object when its operation is reached
-    match foldSteps prim (steps.map (fun st =>
+    match foldSteps prim (fun s f => rv s target f) (steps.map (fun st =>
         (meaning st.1, if arglessDunders.contains st.1 then (fun s => (.ok (.val prim.none), s))
-                       else refArg prim target st.2))) 0 s target with
+                       else refArg prim rv target st.2))) 0 s target with
     | (.ok v, s1) => (.ok (.val v), s1)
     | (.error e, s1) => (.error e, s1)
   | .spec e =>
     match e with
-    | .texpr steps => refArg prim target (.texpr steps)
+    | .texpr steps => refArg prim rv target (.texpr steps)
     | _ => fun s => (.error .unsupported, s)
   | .list xs => fun s =>
-    match refVals (xs.map (fun x => refArg prim target x)) s with
+    match refVals (xs.map (fun x => refArg prim rv target x)) s with
     | (.ok vs, s1) => (.ok (.val (prim.mkList s1 vs).1), (prim.mkList s1 vs).2)
     | (.error e, s1) => (.error e, s1)
   | .tuple xs => fun s =>
-    match refVals (xs.map (fun x => refArg prim target x)) s with
+    match refVals (xs.map (fun x => refArg prim rv target x)) s with
     | (.ok vs, s1) => (.ok (.val (prim.mkTuple s1 vs).1), (prim.mkTuple s1 vs).2)
     | (.error e, s1) => (.error e, s1)
   | .dict es => fun s =>
     match seqRun (es.map (fun p =>
-        refEntryRun prim (refValRun (refArg prim target p.1)) (refValRun (refArg prim target p.2)))) s with
+        refEntryRun prim (refValRun (refArg prim rv target p.1)) (refValRun (refArg prim rv target p.2)))) s with
     | (.error e, s1) => (.error e, s1)
     | (.ok kvs, s1) =>
       match (prim.mkDict s1 kvs).1 with
       | .ok v => (.ok (.val v), (prim.mkDict s1 kvs).2)
       | .error e => (.error (.raised e), (prim.mkDict s1 kvs).2)
+  | .set ty xs =>
+    -- a set display / `frozenset([…])`: the members, then the set is built (hashing them)
+    if rebuiltTypes.contains ty then fun s =>
+      match refVals (xs.map (fun x => refArg prim rv target x)) s with
+      | (.error e, s1) => (.error e, s1)
+      | (.ok vs, s1) =>
+        match (prim.mkSet s1 ty vs).1 with
+        | .ok w => (.ok (.val w), (prim.mkSet s1 ty vs).2)
+        | .error e => (.error (.raised e), (prim.mkSet s1 ty vs).2)
+    else fun s => (.error .unsupported, s)
   | .cargs args kwargs => fun s =>
-    match refVals (args.map (fun x => refArg prim target x)) s with
+    match refVals (args.map (fun x => refArg prim rv target x)) s with
     | (.error e, s1) => (.error e, s1)
     | (.ok as, s1) =>
-      match seqRun (kwargs.map (fun p => refKwRun p.1 (refArg prim target p.2))) s1 with
+      match seqRun (kwargs.map (fun p => refKwRun p.1 (refArg prim rv target p.2))) s1 with
       | (.ok ks, s2) => (.ok (.call as ks), s2)
       | (.error e, s2) => (.error e, s2)
+  -- "every other argument is passed through literally": an instance of a subclass of a builtin
+  -- container is an ordinary object — the operation receives the very object, whatever it contains
+  | .sub _ v _ => fun s => (.ok (.val v), s)
 termination_by e => sizeOf e
 decreasing_by all_goals nested_dec
 
 /-- what the chain of operations `e` yields when applied directly to the target
-    object in state `s`, and the state it leaves -/
-def refEval {V S} (prim : Prim V S) (e : E V) (target : V) (s : S) : Except RefErr V × S :=
-  match refArg prim target e s with
+    object in state `s`, and the state it leaves (`rv = plainRV`: plain Python) -/
+def refEval {V S} (prim : Prim V S) (rv : RV V S) (e : E V) (target : V) (s : S) : Except RefErr V × S :=
+  match refArg prim rv target e s with
   | (.ok (.val v), s1) => (.ok v, s1)
   | (.ok (.call _ _), s1) => (.error .unsupported, s1)
   | (.error e, s1) => (.error e, s1)
@@ -183,6 +226,7 @@ def caughtOfKind (F : Facts) (kind : Kind) : List String :=
 def errOf (F : Facts) : RefErr → Err
   | .opFail k kind e => if caughtBy F (caughtOfKind F kind) e then .pae k e else .raised e
   | .raised e => .raised e
+  | .callee e => e
   | .unsupported => .unsupported
 
 def outOf {α} (F : Facts) (r : Except RefErr α) : Except Err α :=
@@ -223,6 +267,9 @@ def checkObs {W} [BEq W] (r : Except RefErr W) (o : Obs W) : Bool :=
   | .error (.opFail k kind e), .pae k' c g => kind != .call && k == k' && c == e.cls && g
   | .error (.opFail _ kind e), .other c => c == e.cls && !(documented kind e)
   | .error (.raised e), .other c => c == e.cls
+  -- a spec object as callee: the failure of ITS evaluation surfaces as it is
+  | .error (.callee (.pae k e)), .pae k' c g => k == k' && c == e.cls && g
+  | .error (.callee (.raised e)), .other c => c == e.cls
   | _, _ => false
 
 /-- a value as an observer sees it in a given state (for the executable
@@ -243,10 +290,16 @@ def observeS {V S W} (F : Facts) (view : View V S W) (target : V) (r : Except Er
 /-- the property on an observation `(outcome, target afterwards)`: the outcome is
     that of the chain applied directly, and the target object has been changed
     in exactly the way the chain applied directly changes it -/
-def checkC02 {V S W} [BEq W] (view : View V S W) (prim : Prim V S) (e : E V) (target : V) (s : S)
-    (o : Obs W × W) : Bool :=
-  checkObs (viewRes view (refEval prim e target s)) o.1 &&
-    view (refEval prim e target s).2 target == o.2
+def checkC02 {V S W} [BEq W] (view : View V S W) (prim : Prim V S) (rv : RV V S) (e : E V) (target : V)
+    (s : S) (o : Obs W × W) : Bool :=
+  checkObs (viewRes view (refEval prim rv e target s)) o.1 &&
+    view (refEval prim rv e target s).2 target == o.2
+
+/-- outside the C02 fragment -/
+def RefErr.isUnsupported : RefErr → Bool
+  | .unsupported => true
+  | .callee .unsupported => true
+  | _ => false
 
 /-! ### well-formedness of the extracted facts -/
 
@@ -285,8 +338,17 @@ def callCharOk (F : Facts) : Bool :=
   F.dispatch.all (fun en => (Kind.ofString en.2.1 == .call) == F.argExempt.contains en.1) &&
   F.argExempt.all (fun c => F.dispatch.any (fun en => en.1 == c && Kind.ofString en.2.1 == .call))
 
+/-- **every other argument is passed through literally**: the type tests of
+    `_ArgValuator.mode` that guard a rebuild are EXACT tests (`type(spec) in (…)`), none is an
+    `isinstance` test — so an instance of a subclass (namedtuple, defaultdict, OrderedDict, a
+    user's list type) is an ordinary object and reaches the operation as the very object —,
+    and they name exactly the documented builtin containers. -/
+def argModeOk (F : Facts) : Bool :=
+  F.argModeShapeOk && F.argInst.isEmpty &&
+  rebuiltTypes.all (fun t => F.argExact.contains t) && F.argExact.all (fun t => rebuiltTypes.contains t)
+
 def WF (F : Facts) : Bool :=
-  noDroppedOp F && kindsOk F && callCharOk F &&
+  noDroppedOp F && kindsOk F && callCharOk F && argModeOk F &&
   requiredDunders.all (fun d => (charOf F d).isSome) &&
   F.partIdx == ["i // 2"] &&
   (F.exc.mro "PathAccessError").contains "GlomError"
